@@ -48,6 +48,7 @@ class System:
         self.shape = shape
         with_forcing = bool(config["bodies"]) or config.get("with_forcing", False)
         self.free_stream = None if config.get("free_stream") is None else np.array(config["free_stream"], dtype=np.float64)
+        self.free_stream0 = None if self.free_stream is None else self.free_stream.copy()
         kwargs = dict(
             grid_size=shape, x_range=fl["x_range"], kinematic_viscosity=config["nu"], cfl=config.get("cfl", 0.1), real_t=real_t, num_threads=num_threads,
             time=float(config.get("time0", 0.0)),
@@ -242,6 +243,9 @@ class System:
             if not b.dynamic and b.order == "B":
                 b.inter.time_step(dt=dt)
         if self.free_stream is not None:
+            if self.config.get("free_stream_ramp"):
+                # the driver keeps one array and updates it in place (a ramped / gusting free stream)
+                self.free_stream[...] = self.free_stream0 * (1.0 + 0.3 * np.sin(40.0 * (t - float(self.config.get("time0", 0.0)))))
             flow.time_step(dt=dt, free_stream_velocity=self.free_stream)
         else:
             flow.time_step(dt=dt)
